@@ -41,7 +41,7 @@ func run(c *vf.Ctx) {
 	c.Set("rule", "explicit-state DFS over the union alphabet; at every distinct state, for one canonical live element of every kind (v1-address SC incl. its use as the miner fee of a storage proof transaction, v2-address SC, zero-signature SC and SF, in-block ephemeral output, SF, SF at the old developer address incl. the dev-address override, v1 contract, v2 contract) every ordered pair (first use, second use) of applicable uses x every placement {same transaction, later transaction of the same block, later transaction of the same block after an in-block revision of the contract, next block with stale proof, next block with proof maintained through the update, next block presenting the contract in its revised form after a block [revision, first use], after a reorg that re-applies the first use}; oracle: attack block rejected, control blocks (each use alone) accepted; a case is distinct per (network, height, element kind, first use, second use, placement)")
 	nets := []string{"v1-eras", "mixed", "v2-only"}
 	if !c.Quick() {
-		nets = append(nets, "v2-eph5", "v1-mid")
+		nets = append(nets, "v2-eph5") // (a fifth network, v1-mid, did not fit the 25-minute budget with the present attack menu: measured 1320 s with it)
 	}
 	for _, n := range nets {
 		if c.Expired() {
@@ -51,8 +51,8 @@ func run(c *vf.Ctx) {
 		m := &chain.Model{Name: "union", Spec: sp, Menu: menu,
 			Opt: chain.Options{CheckLedger: true, CheckForest: true, CheckSupply: true},
 			H:   vf.Pick[uint64](c, 8, 8), D: vf.Pick(c, 2, 2), K: vf.Pick(c, 1, 2), R: vf.Pick(c, 1, 1)}
-		if n == "v2-eph5" || n == "v1-mid" {
-			m.K = 1 // the two extra networks of the thorough tier: single-action blocks
+		if n == "v2-eph5" {
+			m.K = 1 // the extra network of the thorough tier: single-action blocks
 		}
 		if sp.Name == "mixed" {
 			m.SkipStart = 3
